@@ -78,8 +78,8 @@ def _body(E, w, prog):
             continue
         groups.setdefault(name, {}).setdefault(_full(n, memo), n)
     clashes = {name: list(reps.values()) for name, reps in groups.items() if len(reps) > 1}
-    E.observe("names", len(groups))
-    E.observe("names-carried-by-several-structures", len(clashes))
+    # (how many names there are is not observed: two terms that differ symbolically on a path can coincide for the particular
+    # witness the solver picks -- an index landing on a chunk boundary -- and then share a name in the concrete run)
     E.ensure("names-examined", len(groups) >= 1)
     for name, reps in sorted(clashes.items()):
         first = reps[0]
